@@ -91,7 +91,7 @@ fn limits() -> Vec<SVal> {
         SVal::U128(0), SVal::U128(i128::MAX as u128), SVal::U128(i128::MAX as u128 + 1), SVal::U128(u128::MAX),
         SVal::U128(u64::MAX as u128 + 1), SVal::F32(f32::MAX), SVal::F32(f32::MIN_POSITIVE), SVal::F32(0.1),
         SVal::F32(f32::NAN), SVal::F32(f32::INFINITY), SVal::F64(f64::MAX), SVal::F64(-0.0), SVal::F64(f64::NAN),
-        SVal::F64(f64::NEG_INFINITY), SVal::F64(5e-324), SVal::Char('\u{0}'), SVal::Char('\u{10ffff}'), SVal::Str(String::new()),
+        SVal::F64(f64::NEG_INFINITY), SVal::F64(5e-324), SVal::Char('\u{0}'), SVal::Char('\u{10ffff}'), SVal::Char('A'), SVal::Char('İ'), SVal::Char('ǅ'), SVal::Str(String::new()), SVal::Str("MiXed İǅΣ ß".into()),
         SVal::Bytes(vec![]), SVal::Bytes(vec![0, 255]), SVal::None, SVal::Unit, SVal::UnitStruct("T".into()),
         SVal::UnitVariant("E".into(), 0, "A".into()), SVal::Fail("boom".into()), SVal::Ip([127, 0, 0, 1]),
         SVal::Seq(vec![], true), SVal::Seq(vec![], false), SVal::Tuple(vec![]), SVal::Map(vec![], false),
@@ -119,6 +119,18 @@ fn limits() -> Vec<SVal> {
 /// collections, texts and nestings of many sizes (nothing about the image depends on how large or how deep a value is)
 fn sizes() -> Vec<SVal> {
     let mut v = vec![];
+    // failure messages of many byte lengths, with multi-byte characters straddling every offset
+    for n in [0usize, 1, 85, 86, 127, 128, 129, 255, 256, 257, 1023, 1024, 1025, 70_000] {
+        for pre in 0..3usize {
+            let msg = format!("{}{}", "x".repeat(pre), "é€😀".repeat(n / 9 + 1));
+            v.push(SVal::Fail(msg.clone()));
+            v.push(SVal::Struct("S".into(), vec![("f".into(), SVal::Seq(vec![SVal::U8(1), SVal::Fail(msg)], true))]));
+        }
+    }
+    // field names that differ only by a raw-identifier prefix, side by side
+    v.push(SVal::Struct("S".into(), vec![("r#type".into(), SVal::U8(1)), ("type".into(), SVal::U8(2)), ("width".into(), SVal::U8(3))]));
+    v.push(SVal::StructVariant("E".into(), 0, "V".into(), vec![("type".into(), SVal::U8(2)), ("r#type".into(), SVal::U8(1)), ("r#r#x".into(), SVal::U8(3))]));
+    v.push(SVal::Map(vec![(SVal::Str("r#k".into()), SVal::U8(1)), (SVal::Str("k".into()), SVal::U8(2))], true));
     for n in [31usize, 32, 33, 127, 128, 129, 255, 256, 257, 1000, 65_537] {
         v.push(SVal::Seq((0..n).map(|i| SVal::U32(i as u32)).collect(), n % 2 == 0));
         v.push(SVal::Bytes((0..n).map(|i| i as u8).collect()));
